@@ -166,7 +166,9 @@ def check_tx(case):
 
 
 def _long_varint(n, width):
-    return {3: b'\xfd' + n.to_bytes(2, 'little'), 5: b'\xfe' + n.to_bytes(4, 'little'), 9: b'\xff' + n.to_bytes(8, 'little')}[width]
+    if width == 3 and n > 0xffff:
+        width = 5
+    return {3: b'\xfd', 5: b'\xfe', 9: b'\xff'}[width] + n.to_bytes(width - 1, 'little')
 
 
 def _noncanonical(tx):
@@ -299,6 +301,26 @@ def s_parts(draw):
 
 def t_tx(ctx):
     ctx.hyp(s_tx(), ctx.n(500, 8000))
+    # built corners: witness items / scripts of 8 kB..70 kB (single large writes), stacks of 252..254 and 1,000 items (the item
+    # count's CompactSize grows), a coinbase-shaped transaction (single null outpoint) carrying witness data, sequence 0
+    big = lambda n: (bytes(range(256)) * (n // 256 + 1))[:n].hex()
+    cases = []
+    for n in (8191, 8192, 8193, 16384, 65535, 65536, 70000):
+        cases.append(({'version': 2, 'vin': [['07' * 32, 1, '51', 0]], 'vout': [[5, '51']], 'wit': None, 'locktime': 0}, [[big(n)]]))
+        cases.append(({'version': 2, 'vin': [['07' * 32, 1, big(n), 0]], 'vout': [[5, big(n)]], 'wit': None, 'locktime': 0}, [['aa']]))
+    for n in (252, 253, 254, 1000):
+        cases.append(({'version': 1, 'vin': [['08' * 32, 0, '', 0], ['09' * 32, 0, '', 0]], 'vout': [[1, '']], 'wit': None, 'locktime': 3},
+                      [['%02x' % (i % 256) for i in range(n)], []]))
+    for nullish in (['00' * 32, 0xffffffff], ['00' * 32, 0], ['01' * 32, 0xffffffff]):
+        cases.append(({'version': 1, 'vin': [nullish + ['5151', 0xffffffff]], 'vout': [[50, '51']], 'wit': None, 'locktime': 0}, [['00' * 32]]))
+        cases.append(({'version': 1, 'vin': [nullish + ['5151', 0], ['02' * 32, 1, '', 0]], 'vout': [[50, '51']], 'wit': None, 'locktime': 0}, [['00' * 32], ['bb']]))
+    for k_, (t, A) in enumerate(cases):
+        if k_ % ctx.nshards == ctx.shard:
+            nin = len(t['vin'])
+            ctx.run({'kind': 'tx', 'tx': t, 'order': k_ * 7, 'wits': [['A', A], ['B', [['cc'] for _ in range(nin)]], ['last-only-empty-item', [[] for _ in range(nin - 1)] + [['']]]],
+                     'edits': [['locktime', 9], ['seq', 0, 0], ['wit', 3]]})
+    if ctx.shard == 0:
+        ctx.exhaustive.append('scripts / witness items of 8,191..70,000 bytes; stacks of 252/253/254/1,000 items; coinbase-shaped inputs with witness data')
 
 
 def t_block(ctx):
